@@ -25,7 +25,7 @@ MCInit ==
   /\ dc = [i \in 0..(MCMax - 1) |-> <<>>] /\ rq = <<>>
   /\ cur = AsTags(RulesV(1)) /\ cleared = FALSE
   /\ inst = [i \in 0..(MCMax - 1) |-> AsTags(RulesV(1))]
-  /\ vers = <<AsTags(RulesV(1))>> /\ done = 1 /\ pend = NoPend /\ model = 1
+  /\ vers = <<AsTags(RulesV(1))>> /\ done = 1 /\ pend = NoPend /\ model = 1 /\ upq = <<>> /\ fin = <<>>
   /\ pin = <<>> /\ stage = <<>>
 
 Arrive(q) == /\ ArriveCore(q, {"req"}, <<"*">>, FALSE, FALSE)
@@ -41,7 +41,7 @@ RunStage(q) ==
          got == Restrict(src, names)
      IN /\ rq' = [rq EXCEPT ![q].ran = got @@ @]
         /\ stage' = [stage EXCEPT ![q] = k]
-  /\ UNCHANGED <<pmin, pmax, free, holder, transit, dc, cur, cleared, inst, vers, done, pend, model, pin>>
+  /\ UNCHANGED <<pmin, pmax, free, holder, transit, dc, cur, cleared, inst, vers, done, pend, model, upq, fin, pin>>
 Return(q) == /\ q \in DOMAIN rq /\ rq[q].st = "holding" /\ stage[q] = MCStages
              /\ ReturnCore(q, FALSE, <<>>, FALSE)
              /\ UNCHANGED <<pin, stage>>
